@@ -1,4 +1,6 @@
 import ClusterVerif.Lemmas.C05
+import ClusterVerif.Model.C05Source
+import ClusterVerif.Gen.C05
 
 /-!
 # C05 — each peer's IPFS pinset converges to what the shared pinset assigns to it
@@ -251,5 +253,61 @@ example :
     (track k06Cfg s { cid := 2, kind := .here, mode := .direct, tag := 1 }).2 = .full ∧
     statusOf (track k06Cfg s { cid := 2, kind := .here, mode := .direct, tag := 1 }).1 2 = .pinError := by
   decide
+
+/-! ### The anchored functions still read as the model was transcribed (regenerated from /repo on every run) -/
+
+theorem gen_source_Stateless_f_New : Gen.Stateless.f_New = Expected.Stateless.f_New := rfl
+theorem gen_source_Stateless_f_Tracker_opWorker : Gen.Stateless.f_Tracker_opWorker = Expected.Stateless.f_Tracker_opWorker := rfl
+theorem gen_source_Stateless_f_applyPinF : Gen.Stateless.f_applyPinF = Expected.Stateless.f_applyPinF := rfl
+theorem gen_source_Stateless_f_Tracker_pin : Gen.Stateless.f_Tracker_pin = Expected.Stateless.f_Tracker_pin := rfl
+theorem gen_source_Stateless_f_Tracker_unpin : Gen.Stateless.f_Tracker_unpin = Expected.Stateless.f_Tracker_unpin := rfl
+theorem gen_source_Stateless_f_Tracker_enqueue : Gen.Stateless.f_Tracker_enqueue = Expected.Stateless.f_Tracker_enqueue := rfl
+theorem gen_source_Stateless_f_Tracker_SetClient : Gen.Stateless.f_Tracker_SetClient = Expected.Stateless.f_Tracker_SetClient := rfl
+theorem gen_source_Stateless_f_Tracker_Shutdown : Gen.Stateless.f_Tracker_Shutdown = Expected.Stateless.f_Tracker_Shutdown := rfl
+theorem gen_source_Stateless_f_Tracker_Track : Gen.Stateless.f_Tracker_Track = Expected.Stateless.f_Tracker_Track := rfl
+theorem gen_source_Stateless_f_Tracker_Untrack : Gen.Stateless.f_Tracker_Untrack = Expected.Stateless.f_Tracker_Untrack := rfl
+theorem gen_source_Stateless_f_Tracker_StatusAll : Gen.Stateless.f_Tracker_StatusAll = Expected.Stateless.f_Tracker_StatusAll := rfl
+theorem gen_source_Stateless_f_Tracker_Status : Gen.Stateless.f_Tracker_Status = Expected.Stateless.f_Tracker_Status := rfl
+theorem gen_source_Stateless_f_Tracker_RecoverAll : Gen.Stateless.f_Tracker_RecoverAll = Expected.Stateless.f_Tracker_RecoverAll := rfl
+theorem gen_source_Stateless_f_Tracker_Recover : Gen.Stateless.f_Tracker_Recover = Expected.Stateless.f_Tracker_Recover := rfl
+theorem gen_source_Stateless_f_Tracker_recoverWithPinInfo : Gen.Stateless.f_Tracker_recoverWithPinInfo = Expected.Stateless.f_Tracker_recoverWithPinInfo := rfl
+theorem gen_source_Stateless_f_Tracker_ipfsStatusAll : Gen.Stateless.f_Tracker_ipfsStatusAll = Expected.Stateless.f_Tracker_ipfsStatusAll := rfl
+theorem gen_source_Stateless_f_Tracker_localStatus : Gen.Stateless.f_Tracker_localStatus = Expected.Stateless.f_Tracker_localStatus := rfl
+theorem gen_source_Stateless_f_Tracker_OpContext : Gen.Stateless.f_Tracker_OpContext = Expected.Stateless.f_Tracker_OpContext := rfl
+theorem gen_source_Stateless_f_addError : Gen.Stateless.f_addError = Expected.Stateless.f_addError := rfl
+theorem gen_source_Optracker_f_OperationTracker_String : Gen.Optracker.f_OperationTracker_String = Expected.Optracker.f_OperationTracker_String := rfl
+theorem gen_source_Optracker_f_NewOperationTracker : Gen.Optracker.f_NewOperationTracker = Expected.Optracker.f_NewOperationTracker := rfl
+theorem gen_source_Optracker_f_OperationTracker_TrackNewOperation : Gen.Optracker.f_OperationTracker_TrackNewOperation = Expected.Optracker.f_OperationTracker_TrackNewOperation := rfl
+theorem gen_source_Optracker_f_OperationTracker_Clean : Gen.Optracker.f_OperationTracker_Clean = Expected.Optracker.f_OperationTracker_Clean := rfl
+theorem gen_source_Optracker_f_OperationTracker_Status : Gen.Optracker.f_OperationTracker_Status = Expected.Optracker.f_OperationTracker_Status := rfl
+theorem gen_source_Optracker_f_OperationTracker_SetError : Gen.Optracker.f_OperationTracker_SetError = Expected.Optracker.f_OperationTracker_SetError := rfl
+theorem gen_source_Optracker_f_OperationTracker_unsafePinInfo : Gen.Optracker.f_OperationTracker_unsafePinInfo = Expected.Optracker.f_OperationTracker_unsafePinInfo := rfl
+theorem gen_source_Optracker_f_OperationTracker_Get : Gen.Optracker.f_OperationTracker_Get = Expected.Optracker.f_OperationTracker_Get := rfl
+theorem gen_source_Optracker_f_OperationTracker_GetExists : Gen.Optracker.f_OperationTracker_GetExists = Expected.Optracker.f_OperationTracker_GetExists := rfl
+theorem gen_source_Optracker_f_OperationTracker_GetAll : Gen.Optracker.f_OperationTracker_GetAll = Expected.Optracker.f_OperationTracker_GetAll := rfl
+theorem gen_source_Optracker_f_OperationTracker_CleanAllDone : Gen.Optracker.f_OperationTracker_CleanAllDone = Expected.Optracker.f_OperationTracker_CleanAllDone := rfl
+theorem gen_source_Optracker_f_OperationTracker_OpContext : Gen.Optracker.f_OperationTracker_OpContext = Expected.Optracker.f_OperationTracker_OpContext := rfl
+theorem gen_source_Optracker_f_OperationTracker_Filter : Gen.Optracker.f_OperationTracker_Filter = Expected.Optracker.f_OperationTracker_Filter := rfl
+theorem gen_source_Optracker_f_OperationTracker_filterOps : Gen.Optracker.f_OperationTracker_filterOps = Expected.Optracker.f_OperationTracker_filterOps := rfl
+theorem gen_source_Optracker_f_filterOpsMap : Gen.Optracker.f_filterOpsMap = Expected.Optracker.f_filterOpsMap := rfl
+theorem gen_source_Optracker_f_filter : Gen.Optracker.f_filter = Expected.Optracker.f_filter := rfl
+theorem gen_source_Operation_f_NewOperation : Gen.Operation.f_NewOperation = Expected.Operation.f_NewOperation := rfl
+theorem gen_source_Operation_f_Operation_String : Gen.Operation.f_Operation_String = Expected.Operation.f_Operation_String := rfl
+theorem gen_source_Operation_f_Operation_Cid : Gen.Operation.f_Operation_Cid = Expected.Operation.f_Operation_Cid := rfl
+theorem gen_source_Operation_f_Operation_Context : Gen.Operation.f_Operation_Context = Expected.Operation.f_Operation_Context := rfl
+theorem gen_source_Operation_f_Operation_Cancel : Gen.Operation.f_Operation_Cancel = Expected.Operation.f_Operation_Cancel := rfl
+theorem gen_source_Operation_f_Operation_Phase : Gen.Operation.f_Operation_Phase = Expected.Operation.f_Operation_Phase := rfl
+theorem gen_source_Operation_f_Operation_SetPhase : Gen.Operation.f_Operation_SetPhase = Expected.Operation.f_Operation_SetPhase := rfl
+theorem gen_source_Operation_f_Operation_Error : Gen.Operation.f_Operation_Error = Expected.Operation.f_Operation_Error := rfl
+theorem gen_source_Operation_f_Operation_SetError : Gen.Operation.f_Operation_SetError = Expected.Operation.f_Operation_SetError := rfl
+theorem gen_source_Operation_f_Operation_Type : Gen.Operation.f_Operation_Type = Expected.Operation.f_Operation_Type := rfl
+theorem gen_source_Operation_f_Operation_Pin : Gen.Operation.f_Operation_Pin = Expected.Operation.f_Operation_Pin := rfl
+theorem gen_source_Operation_f_Operation_Timestamp : Gen.Operation.f_Operation_Timestamp = Expected.Operation.f_Operation_Timestamp := rfl
+theorem gen_source_Operation_f_Operation_Cancelled : Gen.Operation.f_Operation_Cancelled = Expected.Operation.f_Operation_Cancelled := rfl
+theorem gen_source_Operation_f_Operation_ToTrackerStatus : Gen.Operation.f_Operation_ToTrackerStatus = Expected.Operation.f_Operation_ToTrackerStatus := rfl
+theorem gen_source_Operation_f_Operation_StatusSnapshot : Gen.Operation.f_Operation_StatusSnapshot = Expected.Operation.f_Operation_StatusSnapshot := rfl
+theorem gen_source_Operation_f_trackerStatus : Gen.Operation.f_trackerStatus = Expected.Operation.f_trackerStatus := rfl
+theorem gen_source_Operation_f_TrackerStatusToOperationPhase : Gen.Operation.f_TrackerStatusToOperationPhase = Expected.Operation.f_TrackerStatusToOperationPhase := rfl
+
 
 end CV.C05
